@@ -44,7 +44,9 @@ def run(rep, F, ctx):
                     return None
                 roots = B.op_origins(t['args'][1], transparent)
                 calls = [callee_of(B.term(r[1])) for r in roots if r[0] == 'call']
-                bad = [r for r in roots if r[0] == 'arg'] + [c for c in calls if not (c or '').endswith('::_abs')]
+                import roles
+                absfn = roles.discover(F).get('memfs_abs', '')
+                bad = [r for r in roots if r[0] == 'arg'] + [c for c in calls if c != absfn]
                 ok = bool(calls) and not bad
                 rep.add('CWD-ABS', 'cwdabs:%s' % n, 'the path stored as cwd in %s comes from _abs' % n, ok, B.loc(i),
                         '' if ok else 'set_cwd receives a path that is not an _abs result (%s): cwd may become relative or unclean' % bad)
